@@ -11,20 +11,71 @@
 EXTENDS StoreMC, Json, TLCExt
 
 CONSTANTS Depth,
-          FailOneIn   \* simulation only: keep a rejected call with probability 1/FailOneIn (1 = keep all; exhaustive runs use 1)
+          FailOneIn   \* simulation only: how often a rejected call is preferred (1 in FailOneIn); 0 = no steering (exhaustive generation)
 
 VARIABLES hist, done
 
 Proj(d) == d
 
 GenInit == Init /\ hist = << >> /\ done = FALSE
+
+-----------------------------------------------------------------------------
+(* Steering of the random walk (simulation).  TLC's simulator picks uniformly   *)
+(* among *all* successor states, and the many equivalent ways of being rejected *)
+(* (update of an absent id with each of 100 person records, ...) would drown    *)
+(* the behaviours that build state.  The walk therefore first draws the kind of *)
+(* call (weighted) and then thins out the rejected instances of that kind.      *)
+(* This restricts which successors of Next are offered; it never adds one.      *)
+
+Kinds == {"create", "update", "delete", "createTeam", "deleteTeam", "links", "rc", "commitAction", "preCommit", "callerError", "commit"}
+Weight(k) == CASE k = "create" -> 5 [] k = "update" -> 4 [] k = "delete" -> 2 [] k = "createTeam" -> 2 [] k = "deleteTeam" -> 1
+               [] k = "links" -> 4 [] k = "rc" -> 4 [] k = "commit" -> 3 [] OTHER -> 1
+LinkNames == {"addLinks", "removeLinks", "setLinks", "addLink", "removeLink"} \cap Ops
+RcNames   == {"rcInc", "rcDec", "rcSet"} \cap Ops
+Active(k) == CASE k \in {"create", "update", "delete", "createTeam", "deleteTeam"} -> k \in Ops /\ InTx
+               [] k = "links" -> LinkNames # {} /\ InTx
+               [] k = "rc" -> RcNames # {} /\ InTx
+               [] k = "commitAction" -> "commitAction" \in Ops /\ txn.acts < 2
+               [] k = "preCommit" -> "preCommit" \in Ops /\ PrePool # {} /\ Len(txn.pre) < 2
+               [] k = "callerError" -> "callerError" \in Ops
+               [] k = "commit" -> TRUE
+Bag == {kn \in Kinds \X (1..5) : Active(kn[1]) /\ kn[2] <= Weight(kn[1])}
+
+XFor(via) == IF via = "staff" THEN Exts ELSE {DummyExt}
+
+KindStep(k) ==
+  CASE k = "create" -> \E via \in Vias, id \in Ids, lt \in LtPool, veto \in VetoPool : \E p \in Persons(id) : \E x \in XFor(via) : TxCreate(via, id, p, x, lt, veto)
+    [] k = "update" -> \E via \in Vias, id \in Ids, lt \in LtPool, f \in FieldSets, veto \in VetoPool : \E p \in Persons(id) : \E x \in XFor(via) : TxUpdate(via, id, p, x, lt, f, veto)
+    [] k = "delete" -> \E via \in Vias, id \in Ids, veto \in VetoPool : TxDelete(via, id, veto)
+    [] k = "createTeam" -> \E t \in Teams : TxCreateTeam(t)
+    [] k = "deleteTeam" -> \E t \in Teams : TxDeleteTeam(t)
+    [] k = "links" -> \/ \E n \in LinkNames \cap {"addLinks", "removeLinks", "setLinks"}, p \in Ids, ts \in SUBSET Teams : TxLinks(n, p, ts)
+                      \/ \E n \in LinkNames \cap {"addLinks", "removeLinks", "setLinks"}, t \in Teams, ps \in SUBSET Ids : TxLinksT(n, t, ps)
+                      \/ \E n \in LinkNames \cap {"addLink", "removeLink"}, p \in Ids, t \in Teams : TxLink1(n, p, t)
+    [] k = "rc" -> \/ \E n \in RcNames \cap {"rcInc", "rcDec"}, p \in Ids, t \in Teams : TxRc(n, p, t, 0)
+                   \/ \E p \in Ids, t \in Teams, c \in CountPool : "rcSet" \in RcNames /\ TxRc("rcSet", p, t, c)
+    [] k = "commitAction" -> AddCommitAction
+    [] k = "preCommit" -> \E o \in PrePool : AddPreCommit(o)
+    [] k = "callerError" -> CallerError
+    [] k = "commit" -> Commit
+
+\* instances of the drawn kind; a rejected instance is kept with probability 1/FailOneIn, an accepted one always
+\* (when nothing is left the walk stutters -- see GenNext -- and draws again)
+Steered ==
+  \E kn \in {RandomElement(Bag)} :
+     /\ KindStep(kn[1])
+     /\ (last'.res = "fail" /\ kn[1] \notin {"callerError", "commit"}) => RandomElement(1..FailOneIn) = 1
+
 \* (the simulator evaluates invariants on every successor it generates, not only on the one it picks:
 \*  a behaviour is therefore printed from the single successor of its last state)
 GenNext == \/ /\ Len(hist) < Depth
-              /\ Next
-              /\ (last'.res = "fail" /\ FailOneIn > 1) => RandomElement(1..FailOneIn) = 1
+              /\ IF FailOneIn = 0 THEN Next
+                 ELSE IF ~txn.open THEN \E k \in TxKinds, sy \in SysCtxs : Begin(k, sy)
+                 ELSE Steered
               /\ hist' = Append(hist, [last |-> last', db |-> Proj(db'), open |-> txn'.open])
               /\ UNCHANGED done
+           \/ /\ Len(hist) < Depth /\ txn.open /\ FailOneIn # 0      \* simulation: draw again
+              /\ UNCHANGED <<vars, hist, done>>
            \/ /\ Len(hist) = Depth /\ ~done
               /\ done' = TRUE
               /\ UNCHANGED <<vars, hist>>
